@@ -7,7 +7,7 @@
    absorbed (all outcomes of I_CNI are allowed); the behaviours are INPUTS for the real code, the real
    outcome is judged by P_CNI.
 
-   - Gen_cover*.cfg: VIEW <<capacities, allocation counts per handle, the fault plan used so far>> and
+   - Gen_cover*.cfg: VIEW <<capacities, allocated and held counts per handle, the fault plan used so far>> and
      ACTION_CONSTRAINT EmitEdge: one behaviour per transition of that abstract graph, i.e. every
      (abstract store state, call, fault position) pair, and for every fault position the un-faulted
      calls that follow it (the "following successful delete").  At most MaxFaults faulted calls.
@@ -20,7 +20,7 @@ CONSTANTS ErrKs,        \* call indexes for kind "error"
           SimLen        \* calls per behaviour
 
 VARIABLES hist, fk      \* fk: the fault plans used so far (sequence of <<kind, k>>)
-gvars == <<alloc, cap, last, hist, fk>>
+gvars == <<alloc, held, cap, last, hist, fk>>
 
 FamSeq(F) == (IF "v4" \in F THEN <<"v4">> ELSE <<>>) \o (IF "v6" \in F THEN <<"v6">> ELSE <<>>)
 RECURSIVE CSeq(_)
@@ -39,7 +39,7 @@ Call(op, c, pl) == /\ hist' = Append(hist, [op |-> op, c |-> c.id, kind |-> pl[1
                    /\ Len(fk') <= MaxFaults
 
 GNext ==
-  \/ /\ Len(hist) = SimLen + 1 /\ hist' = Append(hist, [op |-> "end"]) /\ UNCHANGED <<alloc, cap, last, fk>>
+  \/ /\ Len(hist) = SimLen + 1 /\ hist' = Append(hist, [op |-> "end"]) /\ UNCHANGED <<alloc, held, cap, last, fk>>
   \/ /\ Len(hist) < SimLen + 1
      /\ \/ \E c \in Containers, pl \in Plans, f \in AddFaults : IAdd(c, pl[1] # "", f) /\ Call("add", c, pl)
         \/ \E c \in Containers, pl \in Plans, f \in DelFaults : IDel(c, pl[1] # "", f) /\ Call("del", c, pl)
@@ -51,7 +51,8 @@ GNext ==
 \* abstract store: how many v4 / v6 addresses each handle owns
 Handles == { HCc(c) : c \in Containers } \cup { HLc(c) : c \in Containers }
 Count(h, fam) == Cardinality({ p \in alloc : p.h = h /\ p.a[1] = fam })
-GView == <<cap, [h \in Handles |-> <<Count(h, "v4"), Count(h, "v6")>>], fk>>
+HeldCount(h) == Cardinality({ p \in held : p.h = h })
+GView == <<cap, [h \in Handles |-> <<Count(h, "v4"), Count(h, "v6"), HeldCount(h)>>], fk>>
 EmitEdge == PrintT("BEH " \o ToJson(hist'))
 ErrKsFull == 1..36
 ConfKsFull == 1..8
